@@ -197,14 +197,14 @@ def meta_pair_rules(ck, P, rule="E-COMP-META"):
         wl = lets_of(w)
         cc = [deep_place(c["a"][1], wl) for c in calls_to(w, "utils::compression::compress")]
         dirs = [deep_place(c["a"][-1], wl) for c in calls_to(w, "EntriesV3::as_directory")]
-        hdrset = [deep_place(n["r"], wl) for n in ir.walk_nodes(w["body"]) if n.get("k") == "assign" and ir.place_str(n["l"]).endswith("header.internal_compression")]
+        hdrset = [deep_place(n["r"], wl) for n in ir.walk_nodes(w["body"]) if n.get("k") == "assign" and ir.strip(n["l"]).get("k") == "field" and ir.strip(n["l"]).get("name") == "internal_compression"]
         same = set(cc) | set(dirs)
         ck.check(len(same) == 1 and hdrset and all(next(iter(same)).split("::")[-1] in h for h in hdrset), rule, "pmtiles|writer",
                  "metadata and directories are compressed with one constant (%s) and the header records it (%s)" % (sorted(same), hdrset),
                  "pmtiles internal compression is not one value: compress=%s directories=%s header=%s" % (cc, dirs, hdrset), ir.loc(w))
         rl = lets_of(r[0])
         dec = [deep_place(c["a"][1], rl) for c in calls_to(r[0], "utils::compression::decompress")]
-        ck.check(len(dec) >= 2 and all("header.internal_compression" in d for d in dec), rule, "pmtiles|reader",
+        ck.check(len(dec) >= 2 and all(".internal_compression" in d for d in dec), rule, "pmtiles|reader",
                  "metadata and root directory are decompressed with header.internal_compression (%s)" % dec,
                  "pmtiles reader does not decompress with header.internal_compression: %s" % dec, ir.loc(r[0]))
     # ---- tar / directory: file name suffix and compress argument come from the same value
